@@ -79,7 +79,7 @@ theorem C15_callback_site_local (inp : Bytes) (c : Common) (sim : Sim) (k : RLKi
   intro h
   have := (lexHandleFeedback_X inp c sim (.requestLexeme k) tok hi
     (fun k' hk' => by simp only [Feedback.requestLexeme.injEq] at hk'; subst hk'; exact ⟨hstart, hend⟩)).1 _ h
-  exact this (Or.inr rfl)
+  exact this (Or.inl (Or.inr rfl))
 
 /-- **site 1, local.** `handle_tag` reports "Tag should be a start tag at this point" (or the callback
 assertion) only on an END-tag lexeme while an aux-info request is pending. -/
